@@ -616,6 +616,67 @@ func (r *c06Run) traceState(stream *verifStream, name string, evs []c06Ev) (fina
 // from the first occurrences in chain order, on every instance; a caller is told success only for
 // a command that has been executed.
 
+// cache: what the CommandCache hands out stays what it was.  The batch returned by Get becomes the
+// batch of the proposer's own block (followers hold decoded copies), which is executed views later;
+// k batches are taken in a row from one cache, all held on to (with Proposed calls and further Adds
+// in between, as a proposer does), and each is compared with the copy made when it was returned.
+func (r *c06Run) cacheStream() {
+	v := r.v
+	for _, bs := range []int{1, 2, 5} {
+		for _, k := range []int{2, 16, 17, 18, 40, 100} {
+			cache := clientpb.NewCommandCache(uint32(bs))
+			meta := map[string]any{"stream": "cache", "batch_size": bs, "gets": k}
+			seq := map[uint32]uint64{}
+			add := func(n int) {
+				for ; n > 0; n-- {
+					c := uint32(1 + len(seq)%7)
+					if len(seq) >= 7 {
+						c = uint32(1 + int(seq[1]+seq[2]+seq[3]+seq[4]+seq[5]+seq[6]+seq[7])%7)
+					}
+					seq[c]++
+					cache.Add(&clientpb.Command{ClientID: c, SequenceNumber: seq[c], Data: []byte{byte(c), byte(seq[c]), byte(seq[c] >> 8)}})
+				}
+			}
+			add(3 * bs)
+			var held []*clientpb.Batch
+			var copies []string
+			key := func(b *clientpb.Batch) string {
+				var sb strings.Builder
+				for _, c := range b.GetCommands() {
+					fmt.Fprintf(&sb, "%d/%d/%x;", c.GetClientID(), c.GetSequenceNumber(), c.GetData())
+				}
+				return sb.String()
+			}
+			ok, detail := true, ""
+			for i := 0; i < k; i++ {
+				add(bs + i%2)
+				ctx, cancel := context.WithTimeout(context.Background(), 2*time.Second)
+				b, err := cache.Get(ctx)
+				cancel()
+				if err != nil {
+					v.Count("cache:get-error")
+					break
+				}
+				held = append(held, b)
+				copies = append(copies, key(b))
+				if i%3 == 1 {
+					cache.Proposed(held[i-1]) // an earlier batch got certified
+				}
+				for j := range held {
+					if ok && key(held[j]) != copies[j] {
+						ok = false
+						detail = fmt.Sprintf("batch %d (returned as %s) reads %s after Get number %d", j+1, copies[j], key(held[j]), i+1)
+					}
+				}
+			}
+			v.Oracle(ok, "cache.batch:earlier-batch-changed-by-later-get",
+				fmt.Sprintf("batch size %d, %d Gets in a row: %s", bs, k, detail), meta)
+			v.Count("cache:trial")
+			v.Seen(fmt.Sprintf("cache-%d-%d", bs, k), true, meta)
+		}
+	}
+}
+
 func c06ScaleChain(C int) (blocks [][]c06Cmd, firstOcc [][]c06Cmd) {
 	cmd := func(i int, seq uint64) c06Cmd {
 		return c06Cmd{C: uint32(1 + 13*i), S: seq, D: []byte{byte(i), byte(i >> 8), byte(i >> 16), byte(seq)}}
@@ -1208,6 +1269,7 @@ func TestVerifC06(t *testing.T) {
 	for i := 0; i < v.Pick(150, 3000) && r.blocked < 3; i++ {
 		r.concurrent(i)
 	}
+	r.cacheStream()
 	// scale: many distinct clients
 	ss := v.Stream("cio_s", "cio_mismatches", 1)
 	r.scale(ss, 1500, true)
